@@ -447,11 +447,15 @@ func NumericParams(t *simrt.Tape, w *WF) bool {
 			if p.From != nil || len(p.Vals) == 0 || t.Choose(simrt.StGen, 4, 0) != 1 {
 				continue
 			}
-			ints := t.Choose(simrt.StGen, 2, 0) == 1
+			kind := t.Choose(simrt.StGen, 3, 0)
 			for j := range p.Vals {
-				if ints {
+				switch kind {
+				case 1:
 					p.Vals[j] = fmt.Sprint(7 + 13*j + 100*k)
-				} else {
+				case 2:
+					// values that differ only in the case of their letters
+					p.Vals[j] = []string{"Co", "CO", "cO", "co"}[j%4] + fmt.Sprint(k*10+j/4)
+				default:
 					p.Vals[j] = fmt.Sprintf("%d.%08d", 2+k, 1+j) // 2.00000001, 2.00000002, ...
 				}
 			}
@@ -468,6 +472,25 @@ func CmdSources(t *simrt.Tape, w *WF) map[string]string {
 	for i := range w.Nodes {
 		n := &w.Nodes[i]
 		if n.Kind != KParamSrc || t.Choose(simrt.StGen, 2, 0) != 1 {
+			continue
+		}
+		if t.Choose(simrt.StGen, 3, 0) == 1 {
+			// ... or a FileToParamsReader over a file with one value per line, the last
+			// line possibly without a terminating newline
+			content := strings.Join(n.Vals, "\n")
+			if len(n.Vals) > 0 && t.Choose(simrt.StGen, 2, 0) == 1 {
+				content += "\n"
+			}
+			n.Kind = KFileToParams
+			n.FilePath = "params_" + n.Name + ".txt"
+			w.Sources[n.FilePath] = content
+			for j := range w.Nodes {
+				for k := range w.Nodes[j].Params {
+					if f := w.Nodes[j].Params[k].From; f != nil && f.Node == i {
+						f.Port = "line"
+					}
+				}
+			}
 			continue
 		}
 		var cmds []string
@@ -603,6 +626,15 @@ func defaultNamesDeterminism(c *Case, w *WF) (Verdict, bool) {
 	}
 	if !completedOK(inc1) {
 		return Skipped(Viol("no-completion", "", "%s", endDesc(inc1))), true
+	}
+	// (file names are not predicted here, but the NUMBER of tasks is: every input
+	// set gets its task, none is skipped because another task claimed its path)
+	globs := false
+	for _, n := range w.Nodes {
+		globs = globs || n.Kind == KGlobber // (a glob pattern is written for explicit names)
+	}
+	if got, want := len(execKeys(inc1.Sim.Shell.Trace, "exit", 0)), len(Eval(w).Tasks); got < want && !globs {
+		return Viol("task-lost", "default-names", "default output names: %d input sets, but only %d tasks were executed (%v)", want, got, execKeys(inc1.Sim.Shell.Trace, "exit", 0)), true
 	}
 	b, inc2 := produced()
 	if v, ok := inconclusiveEnd(inc2); ok {
